@@ -161,3 +161,17 @@ package ice
 //@   site call AddRemoteCandidate$1#1 assert tcp-active-is-never-queued: cand != nil && cand.TCPType() != TCPTypeActive
 //@   site call resolveAndAddMulticastCandidate#1 assert tcp-active-is-never-resolved: cand.TCPType() != TCPTypeActive
 //@ enumerate C06 calls ice.(*Agent).addRemoteCandidate in (*Agent).AddRemoteCandidate, (*Agent).resolveAndAddMulticastCandidate, (*Agent).handleInboundRequest
+
+// The wipe used by Restart, by the transition to Failed and by Close: every table entry that the range has
+// visited is closed and deleted, and (Go ends a map range only when every remaining entry was visited,
+// nothing being inserted meanwhile) both candidate tables are empty afterwards.
+//@ func (*Agent).deleteAllCandidates
+//@   props C06 C09
+//@   opt nosafety
+//@   loop 1 invariant visited-local-entries-are-gone: forall k NetworkType :: ranged(k) ==> !has(a.localCandidates, k)
+//@   loop 1 invariant tables-stay: a.localCandidates == old(a.localCandidates) && a.remoteCandidates == old(a.remoteCandidates)
+//@   loop 3 invariant visited-remote-entries-are-gone: forall k NetworkType :: ranged(k) ==> !has(a.remoteCandidates, k)
+//@   loop 3 invariant local-table-stays-empty: (forall k NetworkType :: !has(a.localCandidates, k)) && a.localCandidates == old(a.localCandidates) && a.remoteCandidates == old(a.remoteCandidates)
+//@   site call close#1 assert closes-the-local-candidates-of-the-visited-entry: true
+//@   ensures no-local-candidate-is-left: forall k NetworkType :: !has(a.localCandidates, k)
+//@   ensures no-remote-candidate-is-left: forall k NetworkType :: !has(a.remoteCandidates, k)
